@@ -253,3 +253,134 @@ Proof.
   - cbv zeta in Eq. rewrite Eq. cbn. repeat split; auto. rewrite Forall_map. apply Forall_forall. reflexivity.
   - congruence.
 Qed.
+
+(* ------------------------------------------------------------------ *)
+(* With the guards of _continue_task / _complete_task: for EVERY well-typed configuration (timeouts
+   included) and EVERY event sequence a completed task is final and its follow-ups are dispatched at
+   most once. *)
+
+Definition core_same (s s' : st) : Prop :=
+  s_state s' = s_state s /\ s_info s' = s_info s /\ s_disp s' = s_disp s /\ s_rno s' = s_rno s /\
+  length (s_acts s') = length (s_acts s) /\
+  (s_jobs s' = s_jobs s \/ exists j, s_jobs s' = del_nth (s_jobs s) j).
+
+Lemma completed_not_delayed x : is_completed x = true -> state_eqb x RUNNING_DELAYED = false.
+Proof. destruct x; vm_compute; congruence. Qed.
+
+Lemma final_step_all n s e : is_completed (s_state s) = true -> core_same s (step_n n s e).
+Proof.
+  intros C. destruct e as [| |i x co br|j|d]; cbn [step_n].
+  - unfold start_n. rewrite (completed_not_idle _ C). repeat split; auto.
+  - unfold resume. destruct (is_paused (s_wf s)); [|repeat split; auto].
+    cbn [s_state set_wf]. rewrite (completed_not_idle _ C). repeat split; auto.
+  - destruct (late_result_ignored n s i x co br C) as (A1 & A2 & A3 & A4 & A5 & A6).
+    repeat split; auto.
+  - unfold fire_n. destruct (nth_error (s_jobs s) j) as [jb|]; [|repeat split; auto].
+    set (s1 := if s_now s <? j_at jb then _ else _).
+    assert (Q : core_same s s1).
+    { unfold s1. destruct (_ <? _); repeat split; auto; right; exists j; reflexivity. }
+    assert (Qs : s_state s1 = s_state s) by (destruct Q; assumption).
+    destruct (j_kind jb); rewrite ?Qs, ?(completed_not_delayed _ C), ?C; exact Q.
+  - repeat split; auto.
+Qed.
+
+Lemma core_same_trans a b c : core_same a b -> is_completed (s_state a) = true ->
+  (is_completed (s_state b) = true -> core_same b c) ->
+  s_state c = s_state a /\ s_info c = s_info a /\ s_disp c = s_disp a /\ s_rno c = s_rno a /\
+  length (s_acts c) = length (s_acts a).
+Proof.
+  intros (A1 & A2 & A3 & A4 & A5 & _) C H.
+  destruct H as (B1 & B2 & B3 & B4 & B5 & _); [rewrite A1; exact C|]. repeat split; congruence.
+Qed.
+
+Theorem finality_all n s evs : is_completed (s_state s) = true ->
+  let s' := fold_left (step_n n) evs s in
+  s_state s' = s_state s /\ s_info s' = s_info s /\ s_disp s' = s_disp s /\ s_rno s' = s_rno s /\
+  length (s_acts s') = length (s_acts s).
+Proof.
+  revert s. induction evs as [|e t IH]; intros s C; cbn [fold_left]; [repeat split|].
+  pose proof (final_step_all n s e C) as F. destruct F as (A1 & A2 & A3 & A4 & A5 & A6).
+  assert (C' : is_completed (s_state (step_n n s e)) = true) by (rewrite A1; exact C).
+  destruct (IH _ C') as (B1 & B2 & B3 & B4 & B5). cbv zeta. repeat split; congruence.
+Qed.
+
+Theorem c_finality_all c evs evs' : cfg_ok c = true -> is_completed (s_state (run c evs)) = true ->
+  let s := run c evs in let s' := run c (evs ++ evs') in
+  s_state s' = s_state s /\ s_info s' = s_info s /\ s_disp s' = s_disp s /\ s_rno s' = s_rno s /\
+  length (s_acts s') = length (s_acts s).
+Proof.
+  intros H C. cbv zeta. unfold run. rewrite fold_left_app. fold (run c evs).
+  rewrite (run_norm_from c evs' _ H). apply finality_all, C.
+Qed.
+
+Definition jc_res (j : job) : Prop := match j_kind j with JComplete x _ => result_state x = true | _ => True end.
+
+Definition Dsp (s : st) : Prop :=
+  Forall jc_res (s_jobs s) /\
+  (s_disp s = [] \/ (is_completed (s_state s) = true /\ length (s_disp s) = 1%nat)).
+
+Lemma complete_dsp n x i s : result_state x = true -> Forall jc_res (s_jobs s) -> s_disp s = [] ->
+  is_completed (s_state s) = false -> Dsp (complete_n n x i s).
+Proof.
+  intros R F D C.
+  destruct (complete_case n x i s C R) as [(_ & _ & Eq)|[(_ & _ & i' & Eq)|(_ & _ & i' & Eq)]];
+    cbv zeta in Eq; rewrite Eq; clear Eq; unfold Dsp.
+  - cbn. split; [|left; exact D]. apply Forall_app. split; [exact F|]. repeat constructor. exact R.
+  - cbn. split; [|left; exact D]. apply Forall_app. split; [exact F|]. repeat constructor.
+  - unfold dispatch. cbn [s_wf set_state]. destruct (is_paused (s_wf s)); cbn; (split; [exact F|]).
+    + left. exact D.
+    + right. rewrite D. split; [apply result_completed, eff_result, R|reflexivity].
+Qed.
+
+Lemma before_n_dsp n s : Forall jc_res (s_jobs s) -> s_disp s = [] ->
+  Forall jc_res (s_jobs (before_n n s)) /\ s_disp (before_n n s) = [].
+Proof.
+  intros F D. unfold before_n, conc_n, tmo_n, wb_n, pause_n.
+  destruct (n_pause n), (n_wb n =? 0), (n_tmo n =? 0), (n_conc n =? 0); cbn;
+    repeat match goal with |- context [if ?b then _ else _] => destruct b; cbn end;
+    (split; [|exact D]); repeat (apply Forall_app; split); auto; repeat constructor.
+Qed.
+
+Lemma step_dsp n s e : Dsp s -> Dsp (step_n n s e).
+Proof.
+  intros (F & D).
+  destruct (is_completed (s_state s)) eqn:C.
+  { destruct (final_step_all n s e C) as (A1 & _ & A3 & _ & _ & A6). unfold Dsp. rewrite A1, A3, C. split; [|exact D].
+    destruct A6 as [->|(j & ->)]; [exact F|apply Forall_del, F]. }
+  destruct D as [D|(D & _)]; [|discriminate D].
+  destruct e as [| |i x co br|j|d]; cbn [step_n].
+  - unfold start_n. destruct (is_idle (s_state s)); [|split; auto].
+    set (s0 := match s_t0 s with None => _ | Some _ => s end).
+    assert (F0 : Forall jc_res (s_jobs (set_state RUNNING (s_info s0) s0)) /\ s_disp (set_state RUNNING (s_info s0) s0) = [])
+      by (unfold s0; destruct (s_t0 s); split; assumption).
+    destruct (before_n_dsp n _ (proj1 F0) (proj2 F0)) as (F2 & D2).
+    destruct (state_eqb _ RUNNING); (split; [exact F2|left; exact D2]).
+  - unfold resume. destruct (is_paused (s_wf s)); [|split; auto]. cbn [s_state set_wf].
+    destruct (is_idle (s_state s)); (split; [exact F|left; exact D]).
+  - unfold act_done_n. destruct (nth_error (s_acts s) i) as [a|]; [|split; auto].
+    destruct (state_eqb (a_state a) RUNNING && result_state x) eqn:E; [|split; auto].
+    apply andb_prop in E. destruct E as (_ & Rx). apply complete_dsp; auto.
+  - unfold fire_n. destruct (nth_error (s_jobs s) j) as [jb|] eqn:E; [|split; auto].
+    pose proof (Forall_nth _ _ _ _ F E) as Hjb.
+    set (s1 := if s_now s <? j_at jb then _ else _).
+    assert (Q : Forall jc_res (s_jobs s1) /\ s_disp s1 = [] /\ s_state s1 = s_state s)
+      by (unfold s1; destruct (_ <? _); repeat split; auto; apply Forall_del, F).
+    destruct Q as (Q1 & Q2 & Q3). unfold jc_res in Hjb.
+    destruct (j_kind jb) as [|x i| |].
+    + destruct (state_eqb (s_state s1) RUNNING_DELAYED); (split; [exact Q1|left; exact Q2]).
+    + destruct (state_eqb (s_state s1) RUNNING_DELAYED); [|split; [exact Q1|left; exact Q2]].
+      apply complete_dsp; auto. rewrite Q3. exact C.
+    + rewrite Q3, C. apply complete_dsp; auto. change (s_state (abandon s1)) with (s_state s1). rewrite Q3. exact C.
+    + split; [exact Q1|left; exact Q2].
+  - split; [exact F|left; exact D].
+Qed.
+
+Theorem c_follow_ups_at_most_once c evs : cfg_ok c = true ->
+  let s := run c evs in
+  s_disp s = [] \/ (is_completed (s_state s) = true /\ length (s_disp s) = 1%nat).
+Proof.
+  intros H. cbv zeta. rewrite (run_norm _ _ H). unfold run_n.
+  assert (G : forall evs s, Dsp s -> Dsp (fold_left (step_n (norm c)) evs s)).
+  { induction evs0 as [|e t IH]; intros s D; [exact D|]. cbn. apply IH, step_dsp, D. }
+  apply G. split; [constructor|left; reflexivity].
+Qed.
